@@ -82,6 +82,17 @@ func (g *Engine) Start() error {
 		g.pollers[i] = p
 	}
 
+	// Everything the poller goroutines read must be in place before they are
+	// started: they copy isOneshot on entry and call IOExecute on the first
+	// read event, both of which can happen before Start has returned.
+	g.isOneshot = (g.EpollMod == EPOLLET && g.EPOLLONESHOT == EPOLLONESHOT)
+	if g.AsyncReadInPoller {
+		if g.IOExecute == nil {
+			g.ioTaskPool = taskpool.NewIO(0, 0, 0)
+			g.IOExecute = g.ioTaskPool.Go
+		}
+	}
+
 	// Start IO pollers.
 	for i := 0; i < g.NPoller; i++ {
 		g.pollers[i].ReadBuffer = make([]byte, g.ReadBufferSize)
@@ -111,19 +122,15 @@ func (g *Engine) Start() error {
 				_ = udpListeners[j].Close()
 			}
 
+			if g.ioTaskPool != nil {
+				g.ioTaskPool.Stop()
+			}
+
 			return err
 		}
 	}
 
 	g.Timer.Start()
-	g.isOneshot = (g.EpollMod == EPOLLET && g.EPOLLONESHOT == EPOLLONESHOT)
-
-	if g.AsyncReadInPoller {
-		if g.IOExecute == nil {
-			g.ioTaskPool = taskpool.NewIO(0, 0, 0)
-			g.IOExecute = g.ioTaskPool.Go
-		}
-	}
 
 	if len(g.Addrs) == 0 {
 		logging.Info("NBIO Engine[%v] start with [%v eventloop, MaxOpenFiles: %v]",
